@@ -136,6 +136,61 @@ static void run_legacy(const History& h, Rng& rng) {
     }
 }
 
+static u32 pick_isn(Rng& r, size_t len);
+// ---- the application skips a hole: DataTracker::advance_sequence / Flow::advance_sequence ---------------------------
+// Documented use (data_tracker.h): skip forward to a segment boundary, "cleans the buffer from all no longer needed fragments", after
+// which data flows again. Histories: whole segments only, segments [L, M) never arrive (the hole), the others arrive in a random order,
+// then the application advances to the start of segment M BEFORE that segment has arrived (as from an out-of-order callback), then M
+// arrives. Model: chunks that start below the target are dropped (they also end at or below it: boundaries), chunks above stay untouched,
+// the position is the target, nothing is delivered by the call itself, and afterwards delivery continues: s[0:off L] ++ s[off M:...].
+static void run_skip(Rng& r, bool thorough) {
+    size_t n = 40 + r.below(thorough ? 20000 : 4000); Bytes s = r.bytes(n); u32 isn = pick_isn(r, n); if (r.chance(1, 2)) isn = (u32)(0u - (u32)r.below((u32)n));      // half of the streams cross 2^32
+    std::vector<size_t> cut = {0}; u32 mss = 1 + r.below(r.chance(1, 2) ? 40 : 700); while (cut.back() < n) cut.push_back(std::min(n, cut.back() + 1 + r.below(mss)));
+    size_t S = cut.size() - 1; if (S < 4) return;
+    size_t L = 1 + r.below((u32)S - 2), M = L + 1 + r.below((u32)std::min<size_t>(3, S - 1 - L));      // hole = segments [L, M), M <= S-1
+    std::vector<size_t> order; for (size_t i = 0; i < S; ++i) if (i < L || i > M) order.push_back(i);
+    // some segments inside the hole region DO arrive (and are buffered): they become unnecessary when the application skips past them
+    for (size_t i = L + 1; i < M; ++i) if (r.chance(1, 2)) order.push_back(i);
+    for (size_t i = order.size(); i > 1; --i) std::swap(order[i - 1], order[r.below((u32)i)]);
+    std::string d = "skip: n=" + std::to_string(n) + " isn=" + std::to_string(isn) + " segments=" + std::to_string(S) + " hole=[" + std::to_string(L) + "," + std::to_string(M) + ") order:"; for (size_t i : order) d += " " + std::to_string(i); describe_case(d);
+    sig(mix(fnv(d), isn));
+    const bool via_flow = r.chance(1, 3);
+    DataTracker t(isn); Flow f(IPv4Address("10.0.0.2"), 80, isn); Bytes flow_got; f.data_callback([&](Flow& fl) { flow_got.insert(flow_got.end(), fl.payload().begin(), fl.payload().end()); fl.payload().clear(); });
+    std::map<size_t, size_t> buf; size_t k = 0; Bytes want;      // model: buffered segments (start offset -> index), delivery offset, delivered bytes
+    auto feed = [&](size_t i) {
+        Bytes pl(s.begin() + cut[i], s.begin() + cut[i + 1]);
+        if (via_flow) { TCP tcp(80, 40000); tcp.seq(isn + (u32)cut[i]); tcp.flags(TCP::ACK); EthernetII pkt = EthernetII() / IP("10.0.0.2", "10.0.0.1") / tcp / RawPDU(pl.data(), (u32)pl.size()); f.process_packet(pkt); }
+        else t.process_payload(isn + (u32)cut[i], pl);
+        if (cut[i] == k) { want.insert(want.end(), pl.begin(), pl.end()); k = cut[i + 1]; for (auto it = buf.begin(); it != buf.end() && it->first == k;) { want.insert(want.end(), s.begin() + cut[it->second], s.begin() + cut[it->second + 1]); k = cut[it->second + 1]; it = buf.erase(it); } }
+        else if (cut[i] > k) buf[cut[i]] = i;
+    };
+    auto check = [&](const std::string& when) {
+        const Bytes& got = via_flow ? flow_got : t.payload(); u32 seqn = via_flow ? f.sequence_number() : t.sequence_number(); const DataTracker::buffered_payload_type& bp = via_flow ? f.buffered_payload() : t.buffered_payload(); u32 tb = via_flow ? f.total_buffered_bytes() : t.total_buffered_bytes();
+        const char* who = via_flow ? "Flow" : "DataTracker";
+        if (got != want) { violation(std::string("skip/delivered/") + who, "delivered " + std::to_string(got.size()) + " bytes, expected " + std::to_string(want.size()) + " " + when + " :: " + d); return false; }
+        if (seqn != isn + (u32)k) { violation(std::string("skip/sequence-number/") + who, "sequence_number()=" + std::to_string(seqn) + " expected " + std::to_string(isn + (u32)k) + " " + when + " :: " + d); return false; }
+        u64 held = 0; for (auto& kv : buf) held += cut[kv.second + 1] - cut[kv.second];
+        if (bp.size() != buf.size() || tb != held) { violation(std::string("skip/buffered/") + who, "buffered chunks " + std::to_string(bp.size()) + " / bytes " + std::to_string(tb) + ", expected " + std::to_string(buf.size()) + " / " + std::to_string(held) + " " + when + " :: " + d); return false; }
+        for (auto& kv : buf) { auto it = bp.find(isn + (u32)kv.first); if (it == bp.end() || it->second != Bytes(s.begin() + kv.first, s.begin() + cut[kv.second + 1])) { violation(std::string("skip/buffered-content/") + who, "chunk at offset " + std::to_string(kv.first) + " missing or changed " + when + " :: " + d); return false; } }
+        return true;
+    };
+    for (size_t i : order) { feed(i); if (!check("after segment " + std::to_string(i))) return; cnt("skip:packets"); }
+    // the application skips the hole
+    u32 target = isn + (u32)cut[M];
+    if (via_flow) f.advance_sequence(target); else t.advance_sequence(target);
+    for (auto it = buf.begin(); it != buf.end();) if (it->first < cut[M]) { it = buf.erase(it); cnt("skip:chunk-in-hole-dropped"); } else ++it;
+    k = cut[M];
+    if (!check("after advance_sequence to segment " + std::to_string(M))) return;
+    if ((u64)isn + cut[M] > 0xffffffffULL && (u64)isn + k - (cut[M] - cut[L]) <= 0xffffffffULL) cnt("skip:hole-straddles-2^32");
+    if ((u64)isn + n > 0xffffffffULL) cnt("skip:stream-wraps-2^32");
+    if (!buf.empty()) cnt("skip:chunks-beyond-target-kept");
+    feed(M); if (!check("after the segment skipped to")) return;
+    // an advance to a position at or below the delivery point changes nothing
+    if (via_flow) f.advance_sequence(isn + (u32)cut[L]); else t.advance_sequence(isn + (u32)cut[L]);
+    if (!check("after a backwards advance_sequence")) return;
+    cnt(via_flow ? "skip:histories:Flow" : "skip:histories:DataTracker");
+}
+
 // ---- generators -----------------------------------------------------------------------------
 static u32 pick_isn(Rng& r, size_t len) {
     switch (r.below(8)) { case 0: return 0; case 1: return 1; case 2: return 0x7fffffffu; case 3: return 0x80000000u; case 4: return (u32)(0u - (u32)(len / 2)); case 5: return 0xffffffffu; case 6: return (u32)(0u - (u32)len); default: return (u32)r.next(); }
@@ -204,6 +259,7 @@ int main(int argc, char** argv) {
             if (idx == 0) cnt("exhaustive_sets_total", sets.size());
             return;
         }
+        if (idx % 6 == 5) { run_skip(rng, a.tier == "thorough"); return; }
         History h = gen_random(rng, a.tier == "thorough");
         describe_case(show(h));
         u64 sg = 0; for (auto& g : h.segs) sg = mix(sg, (u64)(g.off + 5000) * 70001 + g.len); sig(mix(sg, h.isn));
